@@ -329,20 +329,27 @@ class World:
         return ex.depth == 0 and q == self.verifying
 
     def undecorate(self, ex, f, full, kwargs):
-        """Decorators with a fixed, modelled meaning."""
-        for d in f.fi.decorators:
+        """Decorators are applied from their real source (pysmt/decorators.py): the wrapper
+        they return is what gets called.  property/staticmethod/classmethod/@handles only
+        affect binding and dispatch; @deprecated only warns."""
+        if getattr(f, "raw", False):
+            return f
+        decs = []
+        for dn in f.fi.node.decorator_list:
+            d = ast.unparse(dn)
             if d in ("property", "staticmethod", "classmethod") or d.startswith("handles(") or \
-                    d.startswith("walkers.handles(") or d.startswith("pysmt.walkers.handles("):
+                    d.startswith("walkers.handles(") or d.startswith("pysmt.walkers.handles(") or \
+                    d.startswith("deprecated(") or ".setter" in d:
                 continue
-            if d.startswith("deprecated("):
-                continue
-            h = self.builtins.get("decorator:" + d.split("(")[0])
-            if h is None:
-                raise Unsupported("decorator %s on %s" % (d, f.qualname))
-            r = h.fn(ex, [f] + full, kwargs)
-            if r is not NotImplemented:
-                return r
-        return f
+            decs.append(dn)
+        if not decs:
+            return f
+        cur = FuncVal(f.fi, f.modname, f.closure, None, f.node, f.owner)
+        cur.raw = True
+        for dn in reversed(decs):
+            dv = ex.eval(dn, Frame(None, {}, f.modname))
+            cur = self.call(ex, dv, [cur], {}, None)
+        return self.call(ex, cur, full, kwargs, None)
 
     def instantiate(self, ex, cref, args, kwargs):
         b = self.builtins.get("new:" + cref.qual)
